@@ -82,7 +82,14 @@ func buildWorld() *world {
 	bf := gpb.F("bare", 2, gpb.KEnum, gpb.Single)
 	bf.Enum = bare
 	tbad := &gpb.Message{Name: "TBad", Fields: []*gpb.Field{fld("sub", 1, gpb.KObject, gpb.Single, sub), bf, fld("w", 3, gpb.KOneof, gpb.Single, wrap)}}
-	w.a = &gpb.Schema{Package: "ca.v1", Enums: []*gpb.Enum{gpb.DefaultEnum, bare}, Messages: []*gpb.Message{t1, t2, r1, r2, tbad}}
+	// every leaf kind in one message: per-call scratch state of the scalar encoders / decoders
+	v1 := &gpb.Message{Name: "V1", Fields: []*gpb.Field{
+		gpb.F("data", 1, gpb.KBytes, gpb.Single), gpb.F("chunks", 2, gpb.KBytes, gpb.Repeated), gpb.F("when", 3, gpb.KTimestamp, gpb.Single),
+		gpb.F("day", 4, gpb.KDate, gpb.Single), gpb.F("amount", 5, gpb.KDecimal, gpb.Single), gpb.F("ratio", 6, gpb.KDouble, gpb.Single),
+		gpb.F("big", 7, gpb.KInt64, gpb.Single), gpb.F("id", 8, gpb.KKeyUUID, gpb.Single), gpb.F("flag", 9, gpb.KBool, gpb.Optional), gpb.F("text", 10, gpb.KString, gpb.Single),
+		gpb.F("by_name", 11, gpb.KBytes, gpb.Map),
+	}}
+	w.a = &gpb.Schema{Package: "ca.v1", Enums: []*gpb.Enum{gpb.DefaultEnum, bare}, Messages: []*gpb.Message{t1, t2, r1, r2, tbad, v1}}
 	u1 := &gpb.Message{Name: "U1", Fields: []*gpb.Field{gpb.F("name", 1, gpb.KString, gpb.Single), gpb.F("n_val", 2, gpb.KInt64, gpb.Single)}}
 	w.b = &gpb.Schema{Package: "cb.v1", Messages: []*gpb.Message{u1}}
 	if err := w.a.Build(); err != nil {
@@ -91,7 +98,7 @@ func buildWorld() *world {
 	if err := w.b.Build(); err != nil {
 		panic(err)
 	}
-	for _, m := range []*gpb.Message{t1, t2, r1, r2, tbad, sub, wrap} {
+	for _, m := range []*gpb.Message{t1, t2, r1, r2, tbad, v1, sub, wrap} {
 		w.msgs[m.Name] = m
 	}
 	w.msgs["U1"] = u1
@@ -180,6 +187,8 @@ const t1doc = `{"sub":{"sVal":"x","nVal":"5"},"color":"RED","name":"n","w":{"!ty
 const t2doc = `{"sub":{"sVal":"a"},"items":[{"nVal":"1"},{"sVal":"b"}],"color":"GREEN"}`
 const r1doc = `{"rTwo":{"rOne":{"name":"deep"},"list":[{"name":"l"}],"color":"RED"},"name":"top"}`
 const r2doc = `{"rOne":{"name":"x","rTwo":{"color":"DARK_BLUE"}},"list":[{"name":"l"}]}`
+const v1docA = `{"data":"AAECAwQFBgcICQoLDA0ODw==","chunks":["/////w==","AA=="],"when":"2024-01-02T03:04:05.000000006Z","day":"2024-02-29","amount":"1234.50","ratio":1.5,"big":"9007199254740993","id":"123e4567-e89b-12d3-a456-426614174000","flag":false,"text":"é\"q","byName":{"a":"AQID"}}`
+const v1docB = `{"data":"/v79/Pv6+fj39vX08/Lx8A==","chunks":["EBESEw==","FBUWFxgZ"],"when":"1999-12-31T23:59:59Z","day":"0001-01-01","amount":"-0.000001","ratio":-1e21,"big":"-9223372036854775808","id":"00000000-0000-0000-0000-000000000000","flag":true,"text":"plain","byName":{"b":"BAUG","c":"Bw=="}}`
 const badDoc = `{"sub":{"sVal":"x"},"w":{"!type":"armB","armB":{"yVal":3}}}`
 
 func scenarios(w *world) []*scenario {
@@ -199,6 +208,8 @@ func scenarios(w *world) []*scenario {
 		{name: "M-warm-two-decodes", warm: []call{w.enc("T1", t1doc)}, threads: [][]call{{w.dec("T1", t1doc)}, {w.dec("T1", t1doc)}}, quickBound: 3, thoroughBound: 99},
 		{name: "O-failing-type-twice", threads: [][]call{{w.dec("TBad", badDoc), w.dec("TBad", badDoc), w.enc("T1", t1doc)}, {w.enc("T2", t2doc)}}, quickBound: 2, thoroughBound: 99},
 		{name: "P-warm-failing-type", warm: []call{w.dec("TBad", badDoc)}, threads: [][]call{{w.dec("TBad", badDoc), w.enc("T2", t2doc)}, {w.enc("T1", t1doc), w.dec("TBad", badDoc)}}, quickBound: 2, thoroughBound: 99},
+		{name: "Q-scalar-scratch-encode", threads: [][]call{{w.enc("V1", v1docA), w.enc("V1", v1docA)}, {w.enc("V1", v1docB)}}, quickBound: 2, thoroughBound: 99},
+		{name: "R-scalar-scratch-mixed", warm: []call{w.enc("V1", v1docA)}, threads: [][]call{{w.enc("V1", v1docA), w.dec("V1", v1docB)}, {w.dec("V1", v1docA), w.enc("V1", v1docB)}}, quickBound: 2, thoroughBound: 4},
 		{name: "I-hash-ids", threads: [][]call{{hashCall("ns", "a", "b"), hashCall("ns", "a", "b")}, {hashCall("ns", "a", "b"), hashCall("other", "c")}}, quickBound: 3, thoroughBound: 99},
 	}
 }
@@ -656,7 +667,7 @@ func parent(r *vk.Runner) {
 	wg.Add(1)
 	go func() {
 		defer wg.Done()
-		ctx, cancel := context.WithTimeout(context.Background(), 600*time.Second)
+		ctx, cancel := context.WithTimeout(context.Background(), 240*time.Second)
 		defer cancel()
 		cmd := exec.CommandContext(ctx, exe, "--free", "20")
 		cmd.Env = append(os.Environ(), "GORACE=halt_on_error=1", "GOTRACEBACK=single")
@@ -664,8 +675,8 @@ func parent(r *vk.Runner) {
 		cmd.Stderr = &se
 		err := cmd.Run()
 		if ctx.Err() != nil {
-			// the bodies are finite (seconds): not finishing in 600 s means blocked goroutines
-			freeOut = "hang: the free-running pass did not finish within 600 s (blocked goroutines)"
+			// the bodies are finite (seconds): not finishing in 240 s means blocked goroutines
+			freeOut = "hang: the free-running pass did not finish within 240 s (blocked goroutines)"
 		} else if err != nil {
 			sig, _ := raceSig(se.String())
 			freeOut = "race: " + sig
